@@ -95,7 +95,7 @@ let run_case (line:string) : string =
      | R200 b -> "200 " ^ hex_of_bytes b
      | R204 -> "204"
      | R500 -> "500")
-  | "buildrl_gz" | "optdir_gz" -> "ok"
+  | "buildrl_gz" | "optdir_gz" | "cluster_root" -> "ok"
   | "buildrl" ->
     let leaf = tn ts in let es = tents ts in
     let ((root, leaves), n) = build_roots_leaves serialize_entries es leaf in
